@@ -85,6 +85,7 @@ let parse_cmode (s : string) : cmode =
   match String.split_on_char '.' s with
   | ["safe"] -> CSafe | ["unsafe"] -> CUnsafe
   | ["reuse"; r] -> CReuse (nat_of_int (int_of_string r))
+  | ["incr"; r] -> CIncr (nat_of_int (int_of_string r))
   | _ -> failwith ("cmode " ^ s)
 
 (* elementwise operations:
@@ -96,9 +97,9 @@ let parse_op (o : string) (impl_step : string) : zop =
   let nat i = nat_of_int (int_of_string f.(i)) in
   let zi i = z_of_int (int_of_string f.(i)) in
   match f.(0) with
-  | "bin" -> ZBin (z_of_int (bin_code f.(1)), nat 2, nat 3, parse_mode f.(4))
+  | "bin" -> ZBin (z_of_int (bin_code f.(1)), nat 2, nat 3, parse_mode f.(4), not (Array.length f > 5 && f.(5) = "method"))
   | "bins" -> ZBinS (z_of_int (bin_code f.(1)), nat 2, zi 3, f.(4) = "left", parse_mode f.(5))
-  | "cmp" -> ZCmp (z_of_int (cmp_code f.(1)), nat 2, nat 3, f.(4) = "same", parse_cmode f.(5))
+  | "cmp" -> ZCmp (z_of_int (cmp_code f.(1)), nat 2, nat 3, f.(4) = "same", parse_cmode f.(5), not (Array.length f > 6 && f.(6) = "method"))
   | "cmps" -> ZCmpS (z_of_int (cmp_code f.(1)), nat 2, zi 3, f.(4) = "left", f.(5) = "same", parse_cmode f.(6))
   | "un" -> ZUn (z_of_int (un_code f.(1)), nat 2, parse_mode f.(3))
   | _ -> ZBase (parse_base_op o impl_step)
